@@ -166,6 +166,34 @@ def run(report, index, tier):
                                         prev[2]))
             if yacc_kw.get('start') != 'program':
                 problems.append('start symbol %r' % (yacc_kw.get('start'),))
+            # what the instance remembers (and later hands to ply's
+            # parse()) must not depend on the optimisation flags either
+            pfields = {}
+            for k, v in parser.__dict__['_fields'].items():
+                if k in ('lex_optimize', 'yacc_optimize', 'lextab',
+                         'yacctab') or isinstance(v, (Obj, tuple)):
+                    continue
+                pfields[k] = v
+            pcall = {}
+            if 'parse' in pmeth:
+                parser.parser = Obj('LRParser', parse=(
+                    'pyfunc', lambda *a_, **k_: pcall.update(
+                        k_, _args=len(a_))))
+                ev3 = Evaluator(pm, 'Parser', pmeth, {}, max_steps=2000)
+                try:
+                    ev3.call(pmeth['parse'], ['x = 1;'], self_obj=parser)
+                except Raised as e:
+                    pcall['raises'] = e.text
+                pcall = {k: v for k, v in pcall.items()
+                         if not isinstance(v, Obj)}
+            prev2 = records.setdefault(('attrs', tabs, wc),
+                                       (pfields, pcall, label))
+            if (pfields, pcall) != prev2[:2]:
+                problems.append(
+                    'the parser instance differs from the configuration '
+                    '%s beyond the flags themselves: attributes %r vs %r, '
+                    'arguments of LRParser.parse %r vs %r' % (
+                        prev2[2], pfields, prev2[0], pcall, prev2[1]))
         r1.check(not problems, label, 'Parser(%s)' % label,
                  '; '.join(problems), where='parsers/es5.py:Parser.__init__'
                  ' / lexers/es5.py:Lexer.build')
@@ -206,6 +234,21 @@ def run(report, index, tier):
                      'gives %r, the same as %r: tables generated for '
                      'another %s would be loaded' % (other, base, what),
                      where='utils.py:generate_tab_names')
+        ev = Evaluator(um, max_steps=2000)
+        ev.constants['ply_dist'] = Obj('Dist', version='3.11')
+        ev.constants['py_major'] = 3
+        try:
+            forced, _ = ev.call(gtn, ['calmjs.parse.parsers.es5'],
+                                {'_version': '3.8'})
+            forced = tuple(forced)
+        except Raised as e:
+            forced = 'raises %s' % e.text
+        r2.check(forced == base, 'installed ply version wins',
+                 'generate_tab_names(..., _version="3.8") with ply 3.11 '
+                 'installed', 'gives %r, the parser loads %r: the build '
+                 'helper (which passes an assumed version) would generate '
+                 'modules the parser never loads' % (forced, base),
+                 where='utils.py:generate_tab_names')
         for nm in base:
             r2.check(nm.startswith('calmjs.parse.parsers.') and all(
                 part.isidentifier() for part in nm.split('.')),
@@ -296,6 +339,71 @@ def run(report, index, tier):
              'does not build a Parser with the generated names of that '
              'module when they are missing (observed %r)' % (events2,),
              where='parsers/optimize.py:optimize_build')
+    vi = need_function(om, 'validate_imports')
+    sysmods = {}
+
+    class ImportError_(Exception):
+        pass
+
+    def import_module(name, *a_):
+        if name.endswith('missing'):
+            raise ImportError(name)
+        m_ = Obj('Module', __file__='/x/%s.py' % name)
+        sysmods[name] = m_
+        return m_
+    ev = Evaluator(om, max_steps=5000)
+    ev.functions['import_module'] = import_module
+    ev.constants['sys'] = Obj('sys', modules=sysmods)
+    try:
+        got, _ = ev.call(vi, ['pkg.lextab_x', 'pkg.yacctab_x',
+                              'pkg.tab_missing'])
+    except Raised as e:
+        got = 'raises %s' % e.text
+    ok = got == (['/x/pkg.lextab_x.py', '/x/pkg.yacctab_x.py'],
+                 ['pkg.tab_missing']) or got == [
+        ['/x/pkg.lextab_x.py', '/x/pkg.yacctab_x.py'], ['pkg.tab_missing']]
+    r3.check(ok and not sysmods, 'validate_imports',
+             'optimize.validate_imports(lextab, yacctab, <missing>)',
+             'returns %r and leaves %s in sys.modules: a table module that '
+             'stays imported is picked up again by ply instead of being '
+             'regenerated' % (got, sorted(sysmods)),
+             where='parsers/optimize.py:validate_imports')
+    # R17.4 ---------------------------------------------------------------
+    r4 = report.rule('R17.4', 'consistency conditions ply verifies only '
+                     'with optimisation off hold (so both modes accept the '
+                     'same lexer / grammar)', floor=60)
+    from .shared import models
+    M = models(index)
+    lmodel, g = M.lexmodel, M.grammar
+    declared = set(lmodel.tokens)
+    for word, ttype in sorted(lmodel.keywords_dict.items()):
+        r4.check(ttype in declared, 'keyword type %s' % ttype,
+                 'keywords_dict[%r] = %r' % (word, ttype),
+                 'the lexer can emit the token type %r which `tokens` does '
+                 'not declare: the unoptimised lexer raises LexError on '
+                 '%r, the lexer loaded from a generated table does not '
+                 'check' % (ttype, word), where='lexers/es5.py:keywords')
+    for rule in lmodel.rules:
+        r4.check(rule.type in declared or rule.type in ('ignore', 'error'),
+                 'rule type %s' % rule.type, 't_%s' % rule.type,
+                 'token rule %s produces an undeclared type' % rule.name,
+                 where='lexers/es5.py')
+    for t in sorted(g.terminals_used() if hasattr(g, 'terminals_used')
+                    else []):
+        r4.check(t in declared, 'grammar terminal %s' % t, t,
+                 'the grammar uses the undeclared terminal %s' % t)
+    # types assigned to tokens inside rule functions
+    for n in ast.walk(lm.tree):
+        if isinstance(n, ast.Assign) and len(n.targets) == 1 and \
+                isinstance(n.targets[0], ast.Attribute) and \
+                n.targets[0].attr == 'type' and isinstance(
+                    n.value, ast.Constant) and isinstance(
+                    n.value.value, str):
+            r4.check(n.value.value in declared or n.value.value in (
+                'AUTOSEMI',), 'assigned type %s' % n.value.value,
+                '%s = %r' % (ast.unparse(n.targets[0]), n.value.value),
+                'a token is given the undeclared type %r' % n.value.value,
+                where='lexers/es5.py (line %d)' % n.lineno)
     report.not_decided += [
         'that ply drives the same parse from imported tables as from '
         'tables computed in memory (inside ply, outside the repository)',
